@@ -659,6 +659,9 @@ def _deps_selection(ctx: Ctx, cf: FuncInfo, deps_arg):
                     return True
         return False
 
+    # elements drawn from the dependencies by a loop count as the dependencies themselves
+    for lp0 in [n for n in walk_local(cf.node) if isinstance(n, ast.For) and mentions(n.iter)]:
+        src_names |= {y.id for y in ast.walk(lp0.target) if isinstance(y, ast.Name)}
     for n in walk_local(cf.node):
         v = None
         if isinstance(n, ast.AugAssign) and isinstance(n.target, ast.Name):
